@@ -327,6 +327,21 @@ def main(run):
                         kcm.release()
                     evals += 1; stats["contrast_matched"] = stats.get("contrast_matched", 0) + 1
                     if not np.allclose(gcm, bgc, rtol=1e-12, atol=0):
+                        # 0 * S is the background only where S itself is a number: the structure factor evaluated alone at
+                        # the effective radius and volume fraction the formula hands it (hayter_msa has none for some radii)
+                        pk_ = pm.make_kernel([np.array([0.01, 0.05, 0.2])]); sk_ = sm.make_kernel([np.array([0.01, 0.05, 0.2])])
+                        try:
+                            mode_ = int(cm.get("radius_effective_mode", 0))
+                            fqp_ = {k_: v_ for k_, v_ in cm.items() if k_ in set(p_.name for p_ in pinfo.parameters.call_parameters)}
+                            fq_ = call_Fq(pk_, dict(fqp_, scale=1.0, background=0.0, radius_effective_mode=mode_), cutoff=1e-5)
+                            sp_ = {p_.name: p_.default for p_ in sinfo.parameters.kernel_parameters[2:]}
+                            sp_.update(scale=1.0, background=0.0, radius_effective=float(fq_[2]) if mode_ > 0 else 50.0, volfraction=0.2 * float(fq_[4]))
+                            s_alone = np.asarray(call_kernel(sk_, sp_, cutoff=1e-5), "d")
+                        finally:
+                            pk_.release(); sk_.release()
+                        if not np.isfinite(s_alone).all():
+                            stats["contrast_matched_S_undefined"] = stats.get("contrast_matched_S_undefined", 0) + 1
+                            continue
                         run.add(Finding("C07:contrast-matched:%s@%s" % (pn, sn), "%s@%s with every SLD equal to the solvent's (structure_factor_mode %g): I(q) = %s, the background is %.6g" % (
                             os.path.basename(pn), sn, bmode, gcm.tolist(), bgc), dict(P=pn, S=sn, pars=cm)))
             for rep in range(4 if not thorough else 8):
